@@ -13,7 +13,7 @@ def sources(mod):
         files["l%d/l.go" % i] = "package l%d\n\ntype T struct{ N int }\n\nfunc New() (T, error) { return T{N: %d}, nil }\n\nvar Default = T{N: %d}\n" % (i, i, i)
     for i in range(3):
         files["blank%d/b.go" % i] = "package blank%d\n\nvar X = %d\n" % (i, i)
-    files["cfg/cfg.go"] = "package cfg\n\ntype Settings struct{ A int }\n\nfunc New() Settings { return Settings{A: 1} }\n"
+    files["cfg/cfg.go"] = "package cfg\n\ntype Settings struct{ A int }\n\nfunc New() (Settings, error) { return Settings{A: 1}, nil }\n"
     imps = "".join('\t"%s/l%d"\n' % (mod, i) for i in range(NLIB))
     blanks = "".join('\t_ "%s/blank%d"\n' % (mod, i) for i in (2, 0, 1))
     inj = ["//go:build wireinject\n// +build wireinject\n\npackage app\n\nimport (\n" + blanks + imps + '\t"%s/cfg"\n\t"github.com/google/wire"\n)\n' % mod]
@@ -30,7 +30,9 @@ def sources(mod):
     files["beta/wire.go"] = ("//go:build wireinject\n// +build wireinject\n\npackage beta\n\nimport (\n\tc \"%s/cfg\"\n\t\"%s/l1\"\n\t\"github.com/google/wire\"\n)\n\n"
                              "func InitS() (c.Settings, error) {\n\tpanic(wire.Build(c.New, l1.New, wrap))\n}\n" % (mod, mod))
     files["beta/b.go"] = "package beta\n\nimport (\n\tc \"%s/cfg\"\n\t\"%s/l1\"\n)\n\nvar cfg = 1\n\ntype W struct{ S c.Settings }\n\nfunc wrap(s c.Settings, t l1.T) (W, error) { return W{S: s}, nil }\n" % (mod, mod)
-    files["beta/wire.go"] = files["beta/wire.go"].replace("(c.Settings, error)", "(W, error)")
+    files["beta/wire.go"] = ("//go:build wireinject\n// +build wireinject\n\npackage beta\n\nimport (\n\tc \"%s/cfg\"\n\t\"github.com/google/wire\"\n)\n\n"
+                             "func InitS() (c.Settings, error) {\n\tpanic(wire.Build(c.New))\n}\n" % mod)
+    files["beta/b.go"] = "package beta\n\nvar cfg = 1\n"
     return files
 
 
